@@ -84,6 +84,9 @@ func exprD(v ssa.Value, d int, seen map[ssa.Value]bool) string {
 		}
 		return "&new"
 	case *ssa.Phi:
+		if resultMode == 2 && isNamedResult(x.Parent(), x.Comment, x.Type()) {
+			return VarName(x)
+		}
 		if seen[x] {
 			return "φ" + VarName(x)
 		}
@@ -128,6 +131,9 @@ func exprD(v ssa.Value, d int, seen map[ssa.Value]bool) string {
 				return exprD(a, d, seen)
 			case *ssa.Alloc:
 				if a.Comment != "" {
+					if resultMode == 1 && isNamedResult(a.Parent(), a.Comment, x.Type()) {
+						return "φ" + VarName(a) + "{*}"
+					}
 					return VarName(a)
 				}
 				return "*new"
@@ -286,11 +292,20 @@ type NormCond struct {
 	Val  ssa.Value // the value tested after stripping negations
 	Atom string    // identity of the tested fact: same operands (SSA values) and same normal operator
 	Alt  string    // for ==/!= between two non-constant operands: the same test with the operands swapped
+	More []string  // the same test with the named results of the function rendered the other way (see resultMode)
 }
 
 // Matches reports whether the pattern matches the condition in either operand order.
 func (n NormCond) Matches(re interface{ MatchString(string) bool }) bool {
-	return re.MatchString(n.Base) || (n.Alt != "" && re.MatchString(n.Alt))
+	if re.MatchString(n.Base) || (n.Alt != "" && re.MatchString(n.Alt)) {
+		return true
+	}
+	for _, m := range n.More {
+		if re.MatchString(m) {
+			return true
+		}
+	}
+	return false
 }
 
 func valKey(v ssa.Value) string {
@@ -306,7 +321,59 @@ func Normalize(v ssa.Value) NormCond { return normalizeWith(v, Expr) }
 // tests of the same callee, e.g. strings.HasPrefix(req.Path, "auth/token/")).
 func NormalizeDeep(v ssa.Value) NormCond { return normalizeWith(v, ExprDeep) }
 
+// resultMode selects how a named result of the enclosing function is rendered.
+// go/ssa lifts a named result to registers (its merges are phis, rendered
+// "φname{...}") unless the function contains a defer, in which case the result
+// stays a memory cell and every read of it is a load (rendered "name"). Whether
+// a function has a defer is irrelevant to the conditions a rule looks for, so a
+// condition is offered to the rule's pattern in both spellings: mode 1 renders a
+// load of a named-result cell as "φname{*}", mode 2 renders a phi of a named
+// result as "name".
+var resultMode int
+
+func isNamedResult(fn *ssa.Function, name string, t types.Type) bool {
+	if fn == nil || name == "" || fn.Signature == nil {
+		return false
+	}
+	res := fn.Signature.Results()
+	for i := 0; i < res.Len(); i++ {
+		if res.At(i).Name() == name && types.Identical(res.At(i).Type(), t) {
+			return true
+		}
+	}
+	return false
+}
+
 func normalizeWith(v ssa.Value, Expr func(ssa.Value) string) NormCond {
+	nc := normalizeInner(v, Expr)
+	in, ok := v.(ssa.Instruction)
+	if !ok || in.Parent() == nil || in.Parent().Signature == nil {
+		return nc
+	}
+	named := false
+	res := in.Parent().Signature.Results()
+	for i := 0; i < res.Len(); i++ {
+		if res.At(i).Name() != "" && res.At(i).Name() != "_" {
+			named = true
+		}
+	}
+	if !named {
+		return nc
+	}
+	for mode := 1; mode <= 2; mode++ {
+		resultMode = mode
+		alt := normalizeInner(v, Expr)
+		resultMode = 0
+		for _, t := range []string{alt.Base, alt.Alt} {
+			if t != "" && t != nc.Base && t != nc.Alt {
+				nc.More = append(nc.More, t)
+			}
+		}
+	}
+	return nc
+}
+
+func normalizeInner(v ssa.Value, Expr func(ssa.Value) string) NormCond {
 	pol := true
 	for {
 		if u, ok := v.(*ssa.UnOp); ok && u.Op == token.NOT {
@@ -324,23 +391,23 @@ func normalizeWith(v ssa.Value, Expr func(ssa.Value) string) NormCond {
 			if _, isC := b.X.(*ssa.Const); isC {
 				x, y = y, x
 			}
-			return NormCond{paren(x) + " == " + paren(y), pol, v, eqKey(b), altEq(b, x, y)}
+			return NormCond{paren(x) + " == " + paren(y), pol, v, eqKey(b), altEq(b, x, y), nil}
 		case token.NEQ:
 			if _, isC := b.X.(*ssa.Const); isC {
 				x, y = y, x
 			}
-			return NormCond{paren(x) + " == " + paren(y), !pol, v, eqKey(b), altEq(b, x, y)}
+			return NormCond{paren(x) + " == " + paren(y), !pol, v, eqKey(b), altEq(b, x, y), nil}
 		case token.LSS:
-			return NormCond{paren(x) + " < " + paren(y), pol, v, valKey(b.X) + "<" + valKey(b.Y), ""}
+			return NormCond{paren(x) + " < " + paren(y), pol, v, valKey(b.X) + "<" + valKey(b.Y), "", nil}
 		case token.GTR:
-			return NormCond{paren(y) + " < " + paren(x), pol, v, valKey(b.Y) + "<" + valKey(b.X), ""}
+			return NormCond{paren(y) + " < " + paren(x), pol, v, valKey(b.Y) + "<" + valKey(b.X), "", nil}
 		case token.LEQ: // x <= y  ==  !(y < x)
-			return NormCond{paren(y) + " < " + paren(x), !pol, v, valKey(b.Y) + "<" + valKey(b.X), ""}
+			return NormCond{paren(y) + " < " + paren(x), !pol, v, valKey(b.Y) + "<" + valKey(b.X), "", nil}
 		case token.GEQ: // x >= y  ==  !(x < y)
-			return NormCond{paren(x) + " < " + paren(y), !pol, v, valKey(b.X) + "<" + valKey(b.Y), ""}
+			return NormCond{paren(x) + " < " + paren(y), !pol, v, valKey(b.X) + "<" + valKey(b.Y), "", nil}
 		}
 	}
-	return NormCond{Expr(v), pol, v, valKey(v), ""}
+	return NormCond{Expr(v), pol, v, valKey(v), "", nil}
 }
 
 func altEq(b *ssa.BinOp, x, y string) string {
